@@ -724,3 +724,30 @@ def ob_second_opinion(pid, D, label="E2"):
     return vf.FN("%s second opinion: every regex query of this run decided again by z3 4.8.12 and cvc5 1.4.0 from portable SMT-LIB2" % label, fn,
                  engine="/usr/bin/z3 4.8.12 (binary) and cvc5 1.4.0 (wheel, lib/cvc5run.py) on SMT-LIB2 printed by rx.to_smt (QF_S, one string variable, re.comp/re.inter)",
                  encodes=ENC_LEX, symbolic="as the queries re-decided", bound="the first 800 distinct queries of the run; per query: 20 s (z3 4.8.12), 10 s (cvc5); an unanswered query is counted, not a failure")
+
+
+# ------------------------------------------------------------------------------------------------ known finding D19 (lone CR)
+def ob_lone_cr(pid, D, finding, label="C05.b"):
+    """isolates known finding D19. cmake-language(7): newline = LF, a line comment is '#' + any text without a newline -- a lone CR
+    inside it belongs to the comment (cmake 3.25 agrees: `# c<CR>message(hi)` prints nothing). CMinx's Line_comment rule stops at CR:
+    the rest of CMake's comment is lexed as live tokens. The reference of C05.b/C04 follows CMinx's grammar on this point (CR, CR LF
+    and LF are line ends); this obligation asks z3 for a member of (CMake line comment with a lone CR followed by a word) and shows on
+    the real lexer that tokens come out of it."""
+    def fn(work):
+        c = ctx(D)
+        lex, ref, q = c["lex"], c["ref"], c["q"]
+        t0, q0, n0 = time.time(), q.secs, q.n
+        ident = cat(alt(rng("A", "Z"), rng("a", "z"), lit("_")), star(alt(rng("A", "Z"), rng("a", "z"), rng("0", "9"), lit("_"))))
+        body = star(notchars("\r\n"))
+        cmake_comment = cat(and_(cat(lit("#"), body), not_(cat(lit("#"), ref.any_bopen, ALL))), lit("\r"), ident, lit("("), lit(")"), lit("\n"))
+        res, w = q.empty("a CMake line comment holding a lone CR followed by word()", cmake_comment)
+        if res != "sat":
+            return dict(verdict=vf.INCONCLUSIVE if res != "unsat" else vf.HARNESS_ERROR, paths=q.n - n0, detail="z3: %s for a non-empty language" % res)
+        s = _strip(w)
+        tr, end = e2.real_trace(s, _names(lex))
+        live = [(k, s[a:b]) for (k, a, b) in tr if k != "SKIP"]
+        return _finish(pid, label + "_lone_cr", work, [("lone CR inside a line comment", s, len(live) > 0, "real lexer emits live tokens %r from text that is one comment line to CMake" % (live,))],
+                       [], q0, n0, t0, q, [{"witness": s}])
+    return vf.FN("%s [known finding %s isolated] a lone CR inside a line comment ends the comment for CMinx, not for CMake" % (label, finding), fn,
+                 engine="z3 regex membership (witness) + real CMakeLexer replay", encodes=ENC_LEX, symbolic="the comment text and the word after the CR",
+                 bound="none on length", finding=finding)
